@@ -539,7 +539,120 @@ func c18StaticGen(g *hx.Gen) {
 	}
 }
 
+// ---- c18.range: Range requests on files with precompressed siblings ----
+//
+// c18.range  blocks  path  ae  siblings  content  plens  range
+//   out = <with gzip> TAB <without>; each: status ce cl <lo>-<hi>/<size> <slice-ok|slice-bad>
+//   slice-ok: the body (after undoing an on-the-fly gzip layer) is exactly bytes lo..hi of the
+//   representation the response names (the sibling file for its Content-Encoding, else the file).
+
+func c18RangeRun(mids []httpserver.Middleware, path, ae, rng, name string, mask int) string {
+	h := httpserver.Handler(staticfiles.FileServer{Root: http.Dir(c18Root)})
+	for i := len(mids) - 1; i >= 0; i-- {
+		h = mids[i](h)
+	}
+	r := httptest.NewRequest("GET", "http://c18.test/", nil)
+	r.URL.Path = path
+	if ae != "" {
+		r.Header.Set("Accept-Encoding", ae)
+	}
+	r.Header.Set("Range", "bytes="+rng)
+	rec := httptest.NewRecorder()
+	status, _ := h.ServeHTTP(rec, r)
+	if status >= 400 {
+		httpserver.DefaultErrorFunc(rec, r, status)
+	}
+	res := rec.Result()
+	body := rec.Body.Bytes()
+	ce := res.Header.Get("Content-Encoding")
+	cl := "-"
+	if v := res.Header.Values("Content-Length"); len(v) > 0 {
+		if len(v) == 1 && v[0] == strconv.Itoa(len(body)) {
+			cl = "="
+		} else {
+			cl = "!"
+		}
+	}
+	cr := strings.TrimPrefix(res.Header.Get("Content-Range"), "bytes ")
+	if cr == "" {
+		cr = "-"
+	}
+	// which representation does the range refer to? a sibling if the file server picked one
+	rep := []byte(c18Files[name])
+	repCE := ""
+	for _, sb := range c18Sib {
+		if mask&sb.bit != 0 && ce == sb.coding {
+			rep = c18SibBytes(name, sb.coding)
+			repCE = sb.coding
+		}
+	}
+	got := body
+	if ce == "gzip" && repCE == "" {
+		// compressed on the fly: undo that layer
+		zr, err := stdgzip.NewReader(bytes.NewReader(body))
+		if err == nil {
+			got, _ = io.ReadAll(zr)
+		}
+	}
+	slice := "slice-bad"
+	var lo, hi, size int
+	if n, _ := fmt.Sscanf(cr, "%d-%d/%d", &lo, &hi, &size); n == 3 && size == len(rep) && lo <= hi && hi < len(rep) && bytes.Equal(got, rep[lo:hi+1]) {
+		slice = "slice-ok"
+	}
+	if ce == "" {
+		ce = "-"
+	} else {
+		ce = hx.HS(ce)
+	}
+	return fmt.Sprintf("%d %s %s %s %s", res.StatusCode, ce, cl, cr, slice)
+}
+
+func c18RangeEval(f []string) (string, []string) {
+	if len(f) != 7 {
+		return "bad-case", nil
+	}
+	mids, err := c18Middleware(f[0])
+	if err != nil {
+		return "setup-error:" + err.Error(), nil
+	}
+	path, ae := hx.UnHS(f[1]), hx.UnHS(f[2])
+	var mask int
+	var name string
+	if _, err := fmt.Sscanf(path, "/m%d/%s", &mask, &name); err != nil || mask < 0 || mask > 7 {
+		return "bad-case", nil
+	}
+	sib, content, plens := c18StaticFields(mask, name)
+	if sib != f[3] || content != f[4] || plens != f[5] {
+		return "bad-case:fields do not describe the file", nil
+	}
+	g := c18RangeRun(mids, path, ae, f[6], name, mask)
+	p := c18RangeRun(nil, path, ae, f[6], name, mask)
+	tags := []string{"range"}
+	if strings.Split(p, " ")[1] != "-" {
+		tags = append(tags, "sibling")
+	} else {
+		tags = append(tags, "plain-file")
+	}
+	return g + "\t" + p, tags
+}
+
+func c18RangeGen(g *hx.Gen) {
+	for mask := 0; mask < 8; mask++ {
+		for _, name := range []string{"f.txt", "f.bin"} {
+			for _, ae := range []string{"", "gzip", "zstd, gzip", "br", "gzip;q=0, zstd"} {
+				for _, bl := range []string{"", "||0|", hx.HS("*") + "||0|"} {
+					for _, rng := range []string{"0-4", "5-", "-3", "0-0"} {
+						sib, content, plens := c18StaticFields(mask, name)
+						g.Case(bl, hx.HS(fmt.Sprintf("/m%d/%s", mask, name)), hx.HS(ae), sib, content, plens, rng)
+					}
+				}
+			}
+		}
+	}
+}
+
 func init() {
+	hx.Register(&hx.Stream{ID: "C18", Name: "c18.range", Gen: c18RangeGen, Eval: c18RangeEval, Setup: c18StaticSetup, Teardown: c18StaticTeardown})
 	hx.Register(&hx.Stream{ID: "C18", Name: "c18.wrap", Gen: c18WrapGen, Eval: c18WrapEval})
 	hx.Register(&hx.Stream{ID: "C18", Name: "c18.static", Gen: c18StaticGen, Eval: c18StaticEval, Setup: c18StaticSetup, Teardown: c18StaticTeardown})
 }
